@@ -6,6 +6,7 @@ mod c04;
 mod c05;
 mod c12;
 mod c19;
+mod choice;
 mod engine;
 mod refdiff;
 mod refmap;
@@ -13,6 +14,7 @@ mod refmvn;
 mod rng;
 mod simdir;
 mod simio;
+mod simjar;
 
 use engine::{Engine, Opts, Tier};
 
